@@ -64,6 +64,10 @@ chk("C18",
     "Graphs beyond 5 jobs and ids outside the fixed spellings are not explored." + OVERLAY_NOTE,
     "explicit enumeration of all graphs x controlled map-iteration orders (stateless DFS over choice points) vs reference model")
 
+chk("C19",
+    "Bounded-exhaustive model checking of the matrix rule through the real Linter: value algebra of 30 values (scalars, sequences incl. nested, mappings to depth 2 in both written member orders); duplicate check on all rows of 2 and 3 values (about 28k); exclude check on all rows of <=2 values over a 12-value sub-algebra x {no include, include of the same key, include-only key} x exclude key in {row, include-only, undefined} x value (about 140k), plus rows / include / include entries / exclude entries given by expressions, and every pair of mapping values under every single map-iteration-order deviation; oracle = structural equality and containment (subset / element-wise / equality) by recursion on the algebra.",
+    "Values outside the algebra (deeper nesting, more members) are represented by these; 'built from expressions' is read as whole row / whole include / whole entry." + OVERLAY_NOTE,
+    "exhaustive enumeration of all matrices over a small value algebra vs recursive reference model; controlled map iteration")
 chk("C20",
     "Stateless model checking of the real Linter.Lint/LintFile/LintFiles + concurrentProcess + externalCommand + shellcheck/pyflakes rule callbacks under a controlled scheduler over a scripted os/exec: per scenario (every shell source, <=2 files, <=3 run steps, semaphore size 1|2) all interleavings up to 2 preemptions (thorough 3) x all per-invocation tool outcomes with <=1 non-default answer (thorough 2); oracle: exact invocation multiset with equally long placeholder replacement, one diagnostic per issue at the run: key, fatal error for every listed failure, at most NumCPU processes at once, everything finished and collected when Lint* returns (success and error path), no deadlock, no WaitGroup misuse; plus sanitizeExpressionsInScript on all strings <=8 over 6 symbols against a reference.",
     "The operating system below process.go is scripted (vexec); scheduling points are the sync operations, so unsynchronised accesses between them are outside this check (supported by a free-running -race pass only). Happens-before state caching assumes data-race freedom. RWMutex writer preference / semaphore FIFO are not modelled (superset of behaviours)." + OVERLAY_NOTE,
